@@ -222,7 +222,8 @@ def run(ctx):
 
         def do(item):
             kind, (name, text, exp, ncell) = item
-            o = engines.observe(plain, sc.sub("%s/%s" % (kind, name)), {"main.nano": text})
+            fs = census.files(name) if kind == "census" else {"main.nano": text}
+            o = engines.observe(plain, sc.sub("%s/%s" % (kind, name)), fs)
             return item, o
 
         table_cells = {"native": 0, "vm": 0}
